@@ -189,7 +189,11 @@ class SimTransport(asyncio.Transport):
 
     def resume_reading(self):
         self._end.paused = False
-        self._end.flush_backlog()
+        # Never hand data over synchronously: a real transport only re-arms the reader here
+        # and the data arrives in a later loop iteration.  StreamReader._wait_for_data()
+        # resumes the transport *before* it creates its waiter, so a synchronous feed_data()
+        # would find no waiter to wake and the reader would sleep on a full buffer.
+        self._loop.call_soon(self._end.flush_backlog)
 
     # writing side -------------------------------------------------------------------------
     def write(self, data):
